@@ -19,7 +19,7 @@
 (***************************************************************************)
 EXTENDS Integers, Sequences, FiniteSets, TLC, Json, TextOps
 
-CONSTANTS EffTokens, MaxEff, Modes, FnModes, MaxFns, Depth, InputOps, Flags, Entries, TracerStyles, Threadeds
+CONSTANTS EffTokens, MaxEff, Modes, FnModes, MaxFns, Depth, InputOps, Flags, Entries, TracerStyles, Threadeds, Givens
 
 VARIABLES file,       \* [top |-> prog, fns |-> Seq(prog)]   prog = [effs |-> Seq(token), mode |-> mode]
           pOut, pSleep, pMods,  \* process globals: "real" or "patched"
@@ -86,9 +86,10 @@ CaptureFails(m) == \/ m = "internalFault"
 \* returns the post-state fields as a record
 \* a program that does not compile executes none of its effects
 EffsOf(prog) == IF prog.mode \in {"syntax", "nul"} THEN <<>> ELSE prog.effs
-Exec(prog, kindOfEntry) ==
+\* inq: the input queue the execution starts from (the sandbox's, or the one handed to run/call through inputs=)
+Exec(prog, kindOfEntry, inq) ==
     LET \* clear_exception; context appended; _start_mocking
-        r == ImplEffs(EffsOf(prog), inputs, <<>>, <<>>)
+        r == ImplEffs(EffsOf(prog), inq, <<>>, <<>>)
         ctx0 == [out |-> <<>>, inputs |-> r.used]
         k == Kind(prog.mode)
         \* which handler runs?  "base" has a handler that stops mocking and re-raises
@@ -129,9 +130,14 @@ Step(a) == hist' = Append(hist, [a |-> a, s |-> Proj'])
 CanAct == Len(hist) < Depth
 A(op, i, xs) == [op |-> op, i |-> i, xs |-> xs]
 
+\* run(inputs=xs) / call(..., inputs=xs): the convenience parameter REPLACES the queue (set_input) before executing,
+\* also when xs is empty or a lone empty string; flag "falsy_inputs_ignored" models a truthiness test on it
+GivenSeq(g) == CASE g = "empty" -> <<>> [] g = "one" -> <<"i1">> [] g = "blank" -> <<"">> [] OTHER -> <<"i1", "i2">>
+Honoured(a) == a.op \in {"run_in", "call_in"} /\ ~("falsy_inputs_ignored" \in Flags /\ a.xs \in {<<>>, <<"">>})
 DoExec(prog, a) ==
-    LET x == Exec(prog, a.op)
-        g == RunEffs(EffsOf(prog), q, <<>>, <<>>)     \* ghost: what the student code really did
+    LET x == Exec(prog, a.op, IF Honoured(a) THEN a.xs ELSE inputs)
+        \* ghost: what the student code really did, starting from the queue the caller asked for
+        g == RunEffs(EffsOf(prog), IF a.op \in {"run_in", "call_in"} THEN a.xs ELSE q, <<>>, <<>>)
     IN /\ pTrace' = x.pTrace /\ pOut' = x.pOut /\ pSleep' = x.pSleep /\ pMods' = x.pMods /\ patches' = x.patches
        /\ stdouts' = x.stdouts /\ raw' = x.raw /\ lines' = x.lines /\ ctxs' = x.ctxs /\ inputs' = x.inputs
        /\ exc' = x.exc /\ fbs' = x.fbs /\ status' = x.status
@@ -144,6 +150,8 @@ DoExec(prog, a) ==
 Clean == pOut = "real" /\ patches = <<>>
 Run == CanAct /\ Clean /\ "run" \in Entries /\ DoExec(file.top, A("run", 0, <<>>))
 Call(i) == CanAct /\ Clean /\ defined /\ "call" \in Entries /\ i \in 1..Len(file.fns) /\ DoExec(file.fns[i], A("call", i, <<>>))
+RunIn(g) == CanAct /\ Clean /\ "run" \in Entries /\ DoExec(file.top, A("run_in", 0, GivenSeq(g)))
+CallIn(i, g) == CanAct /\ Clean /\ defined /\ "call" \in Entries /\ i \in 1..Len(file.fns) /\ DoExec(file.fns[i], A("call_in", i, GivenSeq(g)))
 Evaluate(i) == CanAct /\ Clean /\ defined /\ "evaluate" \in Entries /\ i \in 1..Len(file.fns) /\ DoExec(file.fns[i], A("evaluate", i, <<>>))
 
 Quiet(a) == /\ status' = "returned" /\ UNCHANGED <<file, pOut, pSleep, pMods, pTrace, patches, stdouts, ctxs, exc, fbs, shares, consumed, defined>>
@@ -175,14 +183,15 @@ Init == /\ file \in Files
         /\ consumed = <<>> /\ hist = <<>>
 
 Next == \/ Run \/ (\E i \in 1..MaxFns : Call(i) \/ Evaluate(i))
+        \/ (\E g \in Givens : RunIn(g) \/ \E i \in 1..MaxFns : CallIn(i, g))
         \/ ClearOutput \/ ClearInput
         \/ \E xs \in {<<"i1">>, <<"i1", "i2">>, <<>>}, c \in BOOLEAN : SetInput(xs, c)
 Spec == Init /\ [][Next]_vars
 
 (* ---------- CONTRACT ---------- *)
 LastA == hist[Len(hist)].a
-WasExec == hist # <<>> /\ LastA.op \in {"run", "call", "evaluate"}
-LastProg == IF LastA.op = "run" THEN file.top ELSE file.fns[LastA.i]
+WasExec == hist # <<>> /\ LastA.op \in {"run", "call", "evaluate", "run_in", "call_in"}
+LastProg == IF LastA.op \in {"run", "run_in"} THEN file.top ELSE file.fns[LastA.i]
 \* C05
 Restored == /\ pOut = "real" /\ pSleep = "real" /\ pMods = "real" /\ patches = <<>> /\ stdouts = <<>>
             /\ (file.tracer # "none" => pTrace = "orig")      \* "when tracing is enabled"
